@@ -491,8 +491,15 @@ func checkEffects(p *Program, r *Report, f *FuncFacts, sp *guardSpec, sfn string
 		for _, g := range f.Guards() {
 			keys = append(keys, "guard "+renameParams(g.Key(), cur, sp.params))
 		}
-		for _, a := range f.Accepts() {
-			keys = append(keys, "exit "+renameParams(a.Key(), cur, sp.params))
+		seenX := map[string]bool{}
+		for _, as := range [][]*Guard{f.AcceptsRaw(), f.Accepts()} {
+			for _, a := range as {
+				k := "exit " + renameParams(a.Key(), cur, sp.params)
+				if !seenX[k] {
+					seenX[k] = true
+					keys = append(keys, k)
+				}
+			}
 		}
 		for _, e := range f.Events() {
 			keys = append(keys, "effect "+renameParams(effectKey(f, e), cur, sp.params))
